@@ -26,11 +26,15 @@ VERIF = os.path.dirname(os.path.dirname(os.path.dirname(os.path.abspath(__file__
 
 @st.composite
 def run_args(draw):
-    kw = {"output_mode": draw(st.sampled_from(universe.MODES[:9] + ["sql", "sql", "hql"]))}
+    kw = {"output_mode": draw(st.sampled_from(universe.MODES + ["sql", "sql", "hql"]))}
     if draw(st.booleans()):
         kw["group_by_type"] = draw(st.booleans())
     if draw(st.integers(0, 3)) == 0:
         kw["json_dump"] = draw(st.booleans())
+    if draw(st.integers(0, 7)) == 0:
+        # a dump directory is named but no dump is requested: nothing may be written
+        kw["dump"] = False
+        kw["dump_path"] = draw(st.sampled_from(["dump_dir_x", "schemas"]))
     return kw
 
 
@@ -125,6 +129,10 @@ class C14(Prop):
     hash_batch = {"quick": 150, "thorough": 3000}
 
     def prepare(self, tier):
+        # a private working directory: the history invariant watches it for files that nobody asked for
+        cwd = os.path.join(loader.scratch_dir(), "cwd")
+        os.makedirs(cwd, exist_ok=True)
+        os.chdir(cwd)
         isolated.start()
 
     def strategy(self, tier):
@@ -271,6 +279,11 @@ class C14(Prop):
         collect()
         for i, it in enumerate(universe.corpus()):
             batch.append({"ddl": it["ddl"], "ctor": {}, "run": {"output_mode": universe.MODES[i % len(universe.MODES)], "group_by_type": i % 2 == 0}})
+        # tables with long column names and unnamed multi-column constraints (their synthetic names are derived from the columns)
+        for i in range(40):
+            cols = ["%s_%s_%03d_total" % (gen.REALISTIC_NAMES[(7 * i + j) % len(gen.REALISTIC_NAMES)], gen.REALISTIC_NAMES[(11 * i + 3 * j) % len(gen.REALISTIC_NAMES)], i + j) for j in range(4)]
+            ddl = "CREATE TABLE long_names_%d (%s, UNIQUE (%s), PRIMARY KEY (%s));\n" % (i, ", ".join(c + " int" for c in cols), ", ".join(cols[:3 + i % 2]), ", ".join(cols[1:3]))
+            batch.append({"ddl": ddl, "ctor": {"normalize_names": i % 2 == 0}, "run": {"output_mode": universe.MODES[i % len(universe.MODES)], "json_dump": i % 3 == 0}})
         path = os.path.join(loader.scratch_dir(), "c14_batch.json")
         with open(path, "w") as f:
             json.dump(batch, f)
